@@ -178,3 +178,31 @@ seed(83, "mantis_parallel_ecb_swap_modes switches a copy (no effect on the objec
      ("src/mantis-parallel.c", "    ks = ecb->ctx;\n    mantis_swap_modes(ks);", "    { MantisKey_t copy = *(MantisKey_t *)(ecb->ctx); ks = &copy; }\n    mantis_swap_modes(ks);"))
 seed(84, "mantis_swap_modes forgets to xor alpha into k1", ["C03.R4"],
      ("src/mantis-cipher.c", "    /* XOR k1 with the alpha constant */\n#if RC_ROW_SIZE == 64\n    ks->k1.llrow ^= ALPHA;\n#elif", "    /* XOR k1 with the alpha constant */\n#if RC_ROW_SIZE == 64\n    (void)0;\n#elif"))
+
+seed(86, "skinny64 vec128 CTR encrypt drops the !input check (generic keeps it)", ["C06.R1", "C14.R2"],
+     (S64V, "    /* Validate the parameters */\n    if (!output || !input)\n        return 0;\n    ctx = ctr->ctx;\n    if (!ctx)\n        return 0;\n\n    /* Encrypt the input in CTR mode to create the output */", "    /* Validate the parameters */\n    if (!output)\n        return 0;\n    ctx = ctr->ctx;\n    if (!ctx)\n        return 0;\n\n    /* Encrypt the input in CTR mode to create the output */"))
+seed(87, "skinny128 vec128 CTR keystream: words of blocks 0 and 1 swapped in the de-interleaving store", ["C06.R3"],
+     (V128, "        (SkinnyVector4x32_t){row0[0], row1[0], row2[0], row3[0]};", "        (SkinnyVector4x32_t){row0[1], row1[0], row2[0], row3[0]};"))
+seed(88, "mantis vec128 set_counter accepts size up to 16 (generic rejects > 8)", ["C06.R1", "C14.R2"],
+     ("src/mantis-ctr-vec128.c", "    if (size > MANTIS_BLOCK_SIZE)\n        return 0;\n    ctx = ctr->ctx;", "    if (size > MANTIS_KEY_SIZE)\n        return 0;\n    ctx = ctr->ctx;"))
+seed(89, "vec256 set_key also resets the tweak field (state the generic back end keeps)", ["C06.R1"],
+     ("src/skinny128-ctr-vec256.c", "    if (!skinny128_set_key(&(ctx->kt.ks), key, size))\n        return 0;\n\n    /* Reset the keystream */", "    if (!skinny128_set_key(&(ctx->kt.ks), key, size))\n        return 0;\n    memset(ctx->kt.tweak, 0, sizeof(ctx->kt.tweak));\n\n    /* Reset the keystream */"))
+
+seed(36, "memset(ks->tweak + n, 0, ...) removed from skinny128_set_tweak", ["C04.R3"],
+     ("src/skinny128-cipher.c", "        memcpy(ks->tweak, tweak, tweak_size);\n        memset(ks->tweak + tweak_size, 0, sizeof(ks->tweak) - tweak_size);", "        memcpy(ks->tweak, tweak, tweak_size);"))
+seed(37, "new tweak never stored in skinny64_set_tweak (only xored in)", ["C04.R1", "C04.R3"],
+     ("src/skinny64-cipher.c", "    if (tweak) {\n        memcpy(ks->tweak, tweak, tweak_size);\n        memset(ks->tweak + tweak_size, 0, sizeof(ks->tweak) - tweak_size);\n    } else {\n        memset(ks->tweak, 0, sizeof(ks->tweak));\n    }\n\n    /* XOR the original tweak out of the key schedule */\n    skinny64_xor_tk1(&(ks->ks), tk_prev);\n\n    /* XOR the new tweak into the key schedule */\n    skinny64_xor_tk1(&(ks->ks), ks->tweak);",
+      "    { uint8_t tk_new[SKINNY64_BLOCK_SIZE]; memset(tk_new, 0, sizeof(tk_new)); if (tweak) memcpy(tk_new, tweak, tweak_size);\n\n    /* XOR the original tweak out of the key schedule */\n    skinny64_xor_tk1(&(ks->ks), tk_prev);\n\n    /* XOR the new tweak into the key schedule */\n    skinny64_xor_tk1(&(ks->ks), tk_new); }"))
+seed(38, "tk_prev copied after ks->tweak is overwritten (skinny128)", ["C04.R1"],
+     ("src/skinny128-cipher.c", "    memcpy(tk_prev, ks->tweak, sizeof(tk_prev));\n    if (tweak) {\n        memcpy(ks->tweak, tweak, tweak_size);\n        memset(ks->tweak + tweak_size, 0, sizeof(ks->tweak) - tweak_size);\n    } else {\n        memset(ks->tweak, 0, sizeof(ks->tweak));\n    }\n",
+      "    if (tweak) {\n        memcpy(ks->tweak, tweak, tweak_size);\n        memset(ks->tweak + tweak_size, 0, sizeof(ks->tweak) - tweak_size);\n    } else {\n        memset(ks->tweak, 0, sizeof(ks->tweak));\n    }\n    memcpy(tk_prev, ks->tweak, sizeof(tk_prev));\n"))
+seed(39, "set_tk1(..., 0) on the tweaked path of skinny128_set_key_inner (domain bit lost)", ["C04.R2"],
+     ("src/skinny128-cipher.c", "            ks->rounds = 56;\n            skinny128_set_tk1(ks, tweak, SKINNY128_BLOCK_SIZE, 1);", "            ks->rounds = 56;\n            skinny128_set_tk1(ks, tweak, SKINNY128_BLOCK_SIZE, 0);"))
+seed(90, "skinny64_set_tweaked_key forgets to zero the stored tweak", ["C04.R2", "C11.R5"],
+     ("src/skinny64-cipher.c", "    /* Set the initial tweak to all-zeroes */\n    memset(ks->tweak, 0, sizeof(ks->tweak));\n", ""))
+seed(91, "vec256 CTR set_tweak applies the tweak with a fixed length of 16", ["C04.R4"],
+     ("src/skinny128-ctr-vec256.c", "    if (!skinny128_set_tweak(&(ctx->kt), tweak, tweak_size))", "    if (!skinny128_set_tweak(&(ctx->kt), tweak, tweak_size ? SKINNY128_BLOCK_SIZE : 0))"))
+seed(92, "xor-out pass skipped when the old tweak was never set (first-change shortcut via rounds parity)", ["C04.R1"],
+     ("src/skinny128-cipher.c", "    /* XOR the original tweak out of the key schedule */\n    skinny128_xor_tk1(&(ks->ks), tk_prev);\n", "    /* XOR the original tweak out of the key schedule */\n    skinny128_xor_tk1(&(ks->ks), ks->tweak);\n"))
+seed(93, "tweaked 1-block key uses 56 rounds instead of 48 (skinny128)", ["C04.R5", "C10.R5"],
+     ("src/skinny128-cipher.c", "        if (key_size == SKINNY128_BLOCK_SIZE) {\n            ks->rounds = 48;\n            skinny128_set_tk1(ks, tweak, SKINNY128_BLOCK_SIZE, 1);", "        if (key_size == SKINNY128_BLOCK_SIZE) {\n            ks->rounds = 56;\n            skinny128_set_tk1(ks, tweak, SKINNY128_BLOCK_SIZE, 1);"))
